@@ -228,9 +228,9 @@ class Sim:
             args.append("--local")
         return self.w.spawn_cli("login", "login1", "jade", args)
 
-    def user_cmd(self, args, host="login1", name=None):
+    def user_cmd(self, args, host="login1", name=None, capture=False):
         self.user_n += 1
-        return self.w.spawn_cli(name or f"user{self.user_n}", host, "jade", list(args))
+        return self.w.spawn_cli(name or f"user{self.user_n}", host, "jade", list(args), capture=capture)
 
     def cluster_config(self, out=None):
         return read_json(os.path.join(out or self.out, "cluster_config.json"))
